@@ -1,7 +1,8 @@
 ------------------------- MODULE MC_OmkmRange_cases -------------------------
 (* (S->C) the finite case set replayed into the real _get_omkm_range: every  *)
 (* collection (sequence: order and duplicates matter) of                      *)
-(*   <= 2 identifiers over 5 heads x 8 numbers x 3 printed widths + 3 others, *)
+(*   <= 2 identifiers over 5 heads x 6 numbers x 3 printed widths + 13 others *)
+(*   (letters, signs, blank, digits of other scripts as code points),         *)
 (*   3 identifiers over 3 heads x 4 numbers x 2 widths,                       *)
 (*   4-5 identifiers over {a_0001, a_0002, a_0003, b_0002}.                   *)
 (* Each case carries what TLC computed: `must` (every identifier is in the    *)
@@ -15,8 +16,14 @@ HA == <<97, 95>>
 HAB == <<97, 95, 98, 95>>
 HUU == <<95, 95>>
 U(heads, nums, widths) == {hd \o Pad(n, w) : hd \in heads, n \in nums, w \in widths}
-U2 == U({HNone, HEmpty, HA, HAB, HUU}, {0, 1, 2, 3, 5, 9, 10, 99999}, {1, 4, 5})
+U2 == U({HNone, HEmpty, HA, HAB, HUU}, {0, 1, 2, 9, 10, 99999}, {1, 4, 5})
       \cup {<<97, 95, 120>>, <<97, 95>>, <<97, 98, 99>>}          \* a_x  a_  abc
+      \cup {<<97, 95, 43, 50>>, <<97, 95, 32, 50>>, <<97, 95, 45, 50>>,      \* a_+2  a_ 2  a_-2
+            <<97, 95, 49, 101, 49>>,                                        \* a_1e1
+            <<97, 95, 1634>>, <<97, 95, 2409>>,                             \* a_ + ARABIC-INDIC 2, DEVANAGARI 3
+            <<97, 95, 65296, 65296, 65296, 65298>>,                         \* a_ + FULLWIDTH 0002
+            <<97, 95, 49, 1632>>, <<97, 95, 178>>,                          \* a_1 + ARABIC-INDIC 0; a_ + SUPERSCRIPT 2
+            <<65296, 65296, 65296, 65297>>}                                 \* FULLWIDTH 0001 alone
 U3 == U({HNone, HEmpty, HA}, {1, 2, 3, 5}, {1, 4})
 U5 == U({HA}, {1, 2, 3}, {4}) \cup {<<98, 95, 48, 48, 48, 50>>}
 Seqs(S, lo, hi) == UNION {[1..k -> S] : k \in lo..hi}
